@@ -5,37 +5,64 @@ T = "RsslVerif.Thm.C17."
 def nontrivial(req, obs):
     # at least two pipelines defined in the file
     f = req.split("\t")
+    if f[0] == "C17.typer":
+        return len(f) > 2 and f[2].count("| P ") + (1 if f[2].startswith("P ") else 0) >= 2
+    if f[0] == "C17.wide":
+        return len(f) > 4 and f[4].count("| P ") + (1 if f[4].startswith("P ") else 0) >= 2
     return len(f) > 3 and f[3].count(";") >= 1
 
 
 SPEC = {
     "id": "C17",
-    "gens": ["CompileTables"],
+    "gens": ["CompileTables", "PipelineTables"],
     "lean_modules": ["RsslVerif.Thm.C17"],
     "theorems": [T + n for n in [
         "loop_shape_as_modelled", "pipelines_reads_covered", "one_per_pipeline_in_order",
         "named_selects_exactly", "independent_of_other_pipelines", "all_agrees_with_named",
-        "unknown_name_error", "no_pipeline_error", "no_pipeline_mode_single", "no_multiple_panic"]],
+        "unknown_name_error", "no_pipeline_error", "no_pipeline_mode_single", "no_multiple_panic",
+        "Typer.typer_shape_as_modelled", "Typer.typer_context_uses_covered", "Typer.typer_tables_sane",
+        "Typer.registry_ignores_pipelines", "Typer.typeCheck_pipelines_map", "Typer.typeCheck_names_nodup",
+        "Typer.typeCheck_delete_others", "Typer.independent_of_other_pipelines_file",
+        "Typer.whole_file_one_result_per_block", "Typer.front_error_independent_of_mode"]],
     "harness": "c17",
     "nontrivial": nontrivial,
-    "rule": "generated shader files (0-4 pipelines: compute, vertex+pixel, mesh+pixel, task+mesh; shared and private entry "
-            "points, shared resources, helper call graphs) x {dx, vk, vk+buffer-address, msl} x {all, an existing name, "
-            "unknown name, no-pipeline}; the oracle compares, on the real compile(), every pipeline compiled by name, "
-            "as part of the whole file, and alone in a file whose other Pipeline definitions were deleted "
-            "(bytes, stages, metadata, pipeline state); non-trivial = the file defines at least two pipelines",
-    "level_text": "Proof: compile()'s selection loop is modelled for an arbitrary build function and proved, for any number of "
+    "rule": "(1) progen shader files (0-4 pipelines: compute, vertex+pixel, mesh+pixel, task+mesh; shared and private entry "
+            "points, shared resources, helper call graphs, interleaved layout) x {dx, vk, vk+buffer-address, msl} x {all, an "
+            "existing name, unknown name, no-pipeline}; (2) self-contained 'wide' programs (harness/src/c17/wgen.rs: 21 resource "
+            "kinds, 9 entry signature shapes, every pipeline state property and enum value, items in a random order compatible "
+            "with use-before-definition, prefix / case-variant pipeline names, ~50 % with 1-2 of 25 odd edits: entry defined "
+            "after the block, overloads, declarations, templates, methods, intrinsic names, duplicate names / properties, bad "
+            "stage combinations, bad values, items under an API define, syntax errors ...) x one or two targets x {all, first / "
+            "middle / last name, near-miss and inactive names, no-pipeline} x {API define on/off, include file, layout "
+            "validation, forced buffer address}; the oracle compares, on the real compile(), every pipeline compiled by name, "
+            "as part of the whole file, and alone in a file whose other Pipeline blocks were deleted (bytes, stages, "
+            "metadata, pipeline state), and the same at the level of the type checker's IR pipeline list; "
+            "non-trivial = the file defines at least two pipelines",
+    "level_text": "Proof: (a) compile()'s selection loop is modelled for an arbitrary build function and proved, for any number of "
                   "pipelines with distinct names, to return one result per definition in source order, exactly the named "
                   "pipeline (independently of what else the file defines or whether the others build), clean errors for an "
                   "unknown name / empty file, exactly one result in no-pipeline mode, and never the 'multiple pipelines' panic. "
-                  "The loop's syntactic shape and every textual reader of Module.pipelines are re-extracted from the source on "
-                  "each run; the claim that build_pipeline depends only on the selected pipeline is carried by the type of the "
-                  "model's build parameter, by that reader inventory, and by the metamorphic run on the real compiler.",
+                  "(b) The type checker's pipeline processing (type_check_internal's walk, parse_pipeline, add_stage with its "
+                  "scan of the live function registry, the state pass, parse_blend_state) is modelled and proved, by induction "
+                  "over files of any length, to produce the IR pipeline list as a map over the Pipeline blocks - element i is a "
+                  "function of block i and of the function registry where it stands -, to give accepted files distinct names, "
+                  "and to be stable under deleting any other blocks (same registry, every kept element the same value); composed "
+                  "with (a): compiling a pipeline by name gives the same outcome with or without the other blocks, for any build "
+                  "function of (registry, selected pipeline). The loop's shape, select_pipeline, the default-set read, every "
+                  "textual reader of Module.pipelines, 21 exact-text fingerprints of the typer skeleton, its property / enum "
+                  "tables and every way pipelines.rs touches the typer context are re-extracted from the source on each run "
+                  "and are obligations; the claim that build_pipeline depends only on the selected pipeline is carried by the "
+                  "type of the model's build parameter, by the reader inventory, and by the metamorphic run on the real compiler.",
     "trusted_base": [
         "Lean 4.33 kernel; axioms propext / Classical.choice / Quot.sound only",
-        "tools/gens/c17.py: regex facts about compile()/build_pipeline and the inventory of `.pipelines` uses",
+        "tools/gens/c17.py: regex / exact-text facts about compile(), build_pipeline, select_pipeline, assign_api_bindings, "
+        "parse_pipeline, add_stage, parse_blend_state, type_check_internal; the inventories of `.pipelines` uses and of "
+        "`context.*` uses in pipelines.rs; the property / enum / intrinsic-name tables",
+        "Model/PipelineTyper.lean is a hand-written mirror of parse_pipeline / add_stage whose tables come from Gen; tied by the "
+        "C17.typer correspondence run (IR pipeline list or diagnostic kind + property path)",
         "modelling assumption: build_pipeline reads the pipeline list only through the selected index "
         "(inventory + metamorphic correspondence; not a theorem about the Rust code)",
-        "distinct pipeline names (enforced by the type checker since fix f147da8)",
+        "modelling assumption: evaluating a property value (parse_expr + evaluate_constexpr) does not register functions",
     ],
     "assumptions": ["HashMap iteration order does not influence outputs (C07)"],
 }
